@@ -996,6 +996,15 @@ func opIoExperiment(g *G) (interface{}, []uint64, int, interface{}) {
 		return in, nil, 0, out
 	}
 	back := &experiment.Experiment{}
+	if g.chance(0.3) {
+		// the record is read into an Experiment value that is ALREADY IN USE: it holds another record whose statistics were
+		// queried (cached winner generations, durations); nothing of it may survive the read
+		back = syntheticExperiment(g)
+		for i := range back.Trials {
+			_ = recoverStr(func() { _, _, _, _ = back.Trials[i].WinnerStatistics() })
+		}
+		in.Family += "+usedReceiver"
+	}
 	var rerr error
 	if p := recoverStr(func() { rerr = back.Read(bytes.NewReader(buf.Bytes())) }); p != "" {
 		rerr = fmt.Errorf("panic: %s", p)
